@@ -3,6 +3,7 @@ package main
 import (
 	"go/token"
 	"go/types"
+	"sort"
 	"strconv"
 	"strings"
 
@@ -32,6 +33,13 @@ func (x *Exec) step(fr *Frame, ins ssa.Instruction, st *State) []alt {
 			// (a slice made empty and appended to is an ordinary list)
 			m := mk("madeslice", fr.ctx+"/"+funcKey(fr.fn)+"."+ins.Name(), ins.Type(), x.curMark())
 			st.mem["len:"+m.key] = cell{m, x.val(fr, ins.Len)}
+			return one(st, m)
+		}
+		if lv := x.val(fr, ins.Len); !(lv.isConst() && lv.Aux == "0") {
+			// a slice made non-empty is filled by index: an abstract list with the
+			// identity of its allocation site, grown by the index stores (below)
+			m := mk("list", "made:"+fr.ctx+"/"+funcKey(fr.fn)+"."+ins.Name(), nil)
+			st.mem["len:"+m.Aux] = cell{m, lv}
 			return one(st, m)
 		}
 		return one(st, tList(false, nil))
@@ -141,6 +149,36 @@ func (x *Exec) step(fr *Frame, ins ssa.Instruction, st *State) []alt {
 		}
 		x.store(st, addr, v, ins.Val.Type())
 		x.C.OnStore(x, st, fr, ins.Pos(), addr, v, old)
+		if addr.Op == "index" && addr.Args[0].Op == "list" && addr.Args[0].Aux != "exact" && v != nil {
+			// s[i] = v on an abstract list: v becomes a member of the list, wherever
+			// this slice value is held (weak update; positions are not tracked)
+			l := addr.Args[0]
+			has := false
+			for _, m := range l.Args {
+				if m == v {
+					has = true
+				}
+			}
+			if !has {
+				l2 := mk("list", l.Aux, l.Typ, append(append([]*Term{}, l.Args...), v)...)
+				var ks []string
+				for k, c := range st.mem {
+					if c.val == l {
+						ks = append(ks, k)
+					}
+				}
+				sort.Strings(ks)
+				for _, k := range ks {
+					c := st.mem[k]
+					st.mem[k] = cell{c.addr, l2}
+				}
+				for sv, t := range fr.env {
+					if t == l {
+						fr.env[sv] = l2
+					}
+				}
+			}
+		}
 		return one(st, nil)
 	case *ssa.Extract:
 		t := x.val(fr, ins.Tuple)
@@ -646,6 +684,13 @@ func (x *Exec) builtin(fr *Frame, st *State, site ssa.CallInstruction, name stri
 		if a.Op == "list" {
 			if a.Aux == "exact" {
 				return ret(tConst(strconv.Itoa(len(a.Args)), typ))
+			}
+			if strings.HasPrefix(a.Aux, "made:") {
+				// made with a length: that length, whatever has been stored so far
+				if c, ok := st.mem["len:"+a.Aux]; ok && name == "len" {
+					return ret(c.val)
+				}
+				return ret(mk(name, "", typ, mk("list", a.Aux, nil)))
 			}
 			if len(a.Args) == 0 {
 				return ret(tConst("0", typ))
